@@ -146,7 +146,7 @@ Lemma api_step_closed r a r' ev :
   K r -> (api_calls_open a = true -> J r) -> (is_hb_all a = true -> forall r, K r -> J r) -> api_step r a = (r', ev) -> closed r r' ev.
 Proof.
   intros A HJ HKJ H.
-  destruct a as [dst idev delay|idev|idev|dst idev tp|dst idev tp|force|idev|idev lo up si|idev uniq func cls manuf ind| |mode src|which l];
+  destruct a as [dst idev delay|idev|idev|dst idev tp|dst idev tp|force|idev|idev lo up si|idev uniq func cls manuf ind| |mode src|which l|idev l|idev l|b|serial code model sw ver load version cert];
     cbn [api_step api_calls_open is_hb_all] in *.
   - cbv zeta in H. destruct (valid_dev r (bcast_dev dst idev)); cbn [negb] in H; [|injection H as <- <-; apply keeps_closed; [exact A|apply keeps_refl]].
     destruct (0 <? delay); cbn [negb] in HJ; [injection H as <- <-; apply keeps_closed; [exact A|apply keeps_set_pending]|].
@@ -172,6 +172,10 @@ Proof.
   - destruct (start_claim_all_not_open _ _ _ _ _ (K_open _ A) H) as (-> & B). apply keeps_closed; assumption.
   - injection H as <- <-. apply keeps_closed; [exact A|apply keeps_set_mode_api].
   - injection H as <- <-. apply keeps_closed; [exact A|apply keeps_set_pgn_list].
+  - injection H as <- <-. apply keeps_closed; [exact A|apply keeps_set_tx_list].
+  - injection H as <- <-. apply keeps_closed; [exact A|apply keeps_set_rx_list].
+  - injection H as <- <-. apply keeps_closed; [exact A|apply keeps_set_only_known].
+  - injection H as <- <-. apply keeps_closed; [exact A|apply keeps_with_cfg].
 Qed.
 End Closed.
 
